@@ -102,6 +102,7 @@ type CaseD struct {
 	Occ     []Occurrence         `json:"occ"`
 	Pad     *Pad                 `json:"pad,omitempty"`     // file 1: comment / blank-line padding up to a file-size class
 	Classes []string             `json:"classes,omitempty"` // printer classes (spelling and layout) of both files
+	Via     *Delivery            `json:"via,omitempty"`     // delivery class of every load of the case (nil = regular file)
 }
 
 var attrSpellings = []string{"quoted", "quoted", "heredoc", "heredoc", "heredoc-flush", "quoted-interp", "quoted-if", "heredoc-interp", "heredoc-if", "heredoc-midline", "heredoc-2nd-line", "quoted-midstring"}
@@ -282,6 +283,7 @@ func genD(t *rapid.T) CaseD {
 		}
 		sort.Strings(c.Classes)
 	}
+	c.Via = genDelivery(t)
 	return c
 }
 
@@ -304,7 +306,7 @@ func checkD(c CaseD) *core.Violation {
 		if file == 1 {
 			text, _, _ = expandPad(src, want, c.Pad)
 		}
-		got, err := loadProfile(text)
+		got, err, _ := loadProfileVia(text, c.Via)
 		if err != nil {
 			sum, line, all := diagText(err)
 			sp := "elsewhere"
@@ -343,6 +345,17 @@ func checkD(c CaseD) *core.Violation {
 		}
 		return core.V(fmt.Sprintf("shared-fragment|value-mismatch|%s|after=%s", sp, earlier),
 			"file %d, %s (%s): written %s, loaded %s (%d differing item(s))\npool: %q\n--- profile ---\n%s", file, d.Path, sp, d.Want, d.Got, len(diffs), c.Pool, src)
+	}
+	if c.Via != nil {
+		inner := one
+		one = func(file int, want profile.HavocConfig, src string) *core.Violation {
+			v := inner(file, want, src)
+			if v != nil && v.Sig != astralSig {
+				v.Sig += viaSig(c.Via)
+				v.Msg = fmt.Sprintf("[the profile reaches the loader through a %s, pipe writes of %d bytes (0 = one write)]\n", viaName(c.Via), c.Via.Chunk) + v.Msg
+			}
+			return v
+		}
 	}
 	if v := one(1, c.Cfg, c.Src); v != nil {
 		if c.Pad != nil && v.Sig != astralSig {
@@ -432,6 +445,7 @@ func classifyD(c CaseD) core.Class {
 	}
 	cl.Labels = append(cl.Labels, padLabels(c.Pad, len(c.Src))...)
 	cl.Labels = append(cl.Labels, layoutLabels(c.Classes)...)
+	cl.Labels = append(cl.Labels, viaLabels(c.Via)...)
 	cl.Fingerprint = fmt.Sprintf("%s|%s|across=%v|two=%v|bs+marker=%v", best, order, set["shared-source-fragment:across-files:quoted+heredoc"], set["two-files"], set["fragment:backslash-and-marker"])
 	if c.Pad != nil {
 		cl.Fingerprint = "padded" + padFingerprint(c.Pad)
@@ -442,7 +456,7 @@ func classifyD(c CaseD) core.Class {
 func TestC14d(t *testing.T) {
 	core.Run(t, core.Spec[CaseD]{
 		Property: "C14", Sub: "d",
-		Rule: "a pool of 1-4 source-level fragments (2-8 atoms out of \\\\ \\n \\t \\r \\\" \\xHH, $ % $$ %% $${ %%{, path-like and punctuation text) is written verbatim at 2-7 string positions of a generated profile in different spellings: quoted value, inside a longer quoted string, ${\"...\"}, %{if true}...%{endif}, block label, map key, list element, heredoc line (<<ID, <<-ID, second line, middle of a line, ${\"...\"} and %{if} inside a heredoc); items shuffled so that either spelling comes first; in half of the cases a second profile reusing the pool is loaded next in the same process and the first one again after it. Oracle: every occurrence loads as the value its own spelling gives the text (quoted: escapes resolved; heredoc: backslashes literal, only $${ %%{ special), everything else as generated. Every case is non-trivial; distinct = (richest set of rules that meet on one fragment, which came first, same fragment under both rules across the two files, two files?, fragment has backslash and marker). The files use the layout dimensions of sub-check a (single-line blocks also around a planted list / map value that spans lines, empty blocks on one line, odd block-header and = spacing, runs of blank lines, trailing commas, CRLF, no final newline), shown as labels layout:<class>",
+		Rule: "a pool of 1-4 source-level fragments (2-8 atoms out of \\\\ \\n \\t \\r \\\" \\xHH, $ % $$ %% $${ %%{, path-like and punctuation text) is written verbatim at 2-7 string positions of a generated profile in different spellings: quoted value, inside a longer quoted string, ${\"...\"}, %{if true}...%{endif}, block label, map key, list element, heredoc line (<<ID, <<-ID, second line, middle of a line, ${\"...\"} and %{if} inside a heredoc); items shuffled so that either spelling comes first; in half of the cases a second profile reusing the pool is loaded next in the same process and the first one again after it. Oracle: every occurrence loads as the value its own spelling gives the text (quoted: escapes resolved; heredoc: backslashes literal, only $${ %%{ special), everything else as generated. Every case is non-trivial; distinct = (richest set of rules that meet on one fragment, which came first, same fragment under both rules across the two files, two files?, fragment has backslash and marker). The files use the layout dimensions of sub-check a (single-line blocks also around a planted list / map value that spans lines, empty blocks on one line, odd block-header and = spacing, runs of blank lines, trailing commas, CRLF, no final newline), shown as labels layout:<class>. Delivery dimension as in sub-check a (labels via:*, via-pipe-writes:*; about 1 case in 4): every load of the case (file 1, file 2, file 1 again) goes through a symbolic link, a named pipe or /proc/self/fd/N of a pipe; signature suffix |via=<kind>",
 		Gen:  genD, Check: checkD, Classify: classifyD,
 		Assumptions: []string{
 			"same comparison as sub-check a (NFC, nil = empty collection)",
